@@ -1,5 +1,5 @@
 """C09 - the grammar the compiler analyses is the grammar the user wrote (partial)."""
-from . import mir, rt, report
+from . import idiom, mir, rt, report
 from .mir import Sim, TermBuilder, callee, fmt, has_call, has_field
 from .rt import is_call, calls, idx
 
@@ -156,7 +156,23 @@ def run(ctx, res):
                 last = None
         if last is not None:
             rows.add((last[1], False, True))
-    if (0, True, True) in rows and not any(r[0] == 1 and r[1] for r in rows):
+    # second spelling: meta.entry(key).or_insert(data) inserts only when the key is absent
+    entry_form = False
+    if not rows:
+        for p in Sim(ep, F, max_paths=300000).run():
+            for e in p.events:
+                if e[0] == "call" and (e[1].endswith("Entry<'a, K, V, A>::or_insert") or e[1].endswith("::or_insert_with") or e[1].endswith("::or_insert")) \
+                        and is_call(e[2][0], "::entry") and (has_field(e[2][0][2][0], "meta", "Production") or
+                                                             mir.contains(e[2][0][2][0], lambda x: x == ("var", "new_production"))):
+                    entry_form = True
+            if entry_form:
+                break
+    if entry_form:
+        res.ok(rid3, "inherit-polarity", ep.loc(), "new_production.meta.entry(key).or_insert(data)")
+        order_ok = True if order_ok is None else order_ok
+    elif not rows:
+        res.anchor_lost(rid3, "inheritance of rule meta-data (contains_key + insert, or entry().or_insert()) not recognised", ep.loc())
+    elif (0, True, True) in rows and not any(r[0] == 1 and r[1] for r in rows):
         res.ok(rid3, "inherit-polarity", ep.loc(), "insert(key, data) only when !new_production.meta.contains_key(key)")
     else:
         res.violation(rid3, "inherit-polarity", "rule meta-data inheritance table (contains_key, inserted, same key) is %s: a production's own "
@@ -189,11 +205,18 @@ def run(ctx, res):
                 v = e[2]
                 gets = [c for c in mir.calls_in(v) if c[1].endswith("::get") and has_field(c[2][0], "terminals_matches")]
                 ck = [c for t, vv in p.cond for c in [t] if is_call(t, "contains_key") and vv == 1]
-                ok4b = bool(gets) and bool(ck) and gets[0][2][1] == ck[0][2][1]
+                # `if contains_key(k) { get(k) }` with one key, or `if let Some(x) = get(k)` (one lookup, nothing to disagree)
+                some = [1 for t, vv in p.cond if t[0] == "discr" and gets and idiom.same(t[1], gets[0]) and vv == frozenset(["Some"])]
+                if gets and ck:
+                    ok4b = gets[0][2][1] == ck[0][2][1]
+                elif gets and some:
+                    ok4b = True
     if ok4b:
         res.ok(rid4, "resolution", ri.loc(), "index = terminals_matches[literal].1 for the same literal that was looked up")
     elif ok4b is False:
         res.violation(rid4, "resolution", "an inline literal is resolved through another key than the one checked", ri.loc())
+    else:
+        res.anchor_lost(rid4, "resolution of inline literals through terminals_matches not recognised", ri.loc())
     # R5 desugar templates
     rid5 = res.rule("C09-R5", "helper rules of ?, *, + (and + with separator) have the documented right-hand sides", floor=6)
     for fn, spec in DESUGAR_SPEC.items():
@@ -210,6 +233,9 @@ def run(ctx, res):
                 vs = vec_names(p)
                 names = [classify(x) for x in vs[0]] if vs else []
                 got["idx0" if i0[0] == 1 else "idx1"].append(names)
+        if not got["idx0"] and not got["idx1"]:
+            res.anchor_lost(rid5, "%s: construction of the helper productions ((0..2).map(|idx| ..)) not recognised" % fn, f.loc())
+            continue
         for k in ("idx0", "idx1"):
             if sorted(got[k]) == sorted(spec[k]):
                 res.ok(rid5, "%s/%s" % (fn, k), f.loc(), str(got[k]))
